@@ -145,7 +145,9 @@ CHECKS = {
          "stems from a hint of the deepest command level entered (after `--` a positional one); names pass the name filters "
          "(empty/`-` word, exact short spelling, `--` prefix of the first long name; command prefix or short alias) and are "
          "offered in their preferred spelling, arguments as name=METAVAR; completer values carry the typed `-s=`/`--long=`; "
-         "placeholders replace nothing; while an argument's value is typed no flag/argument/command name is offered; otherwise "
+         "placeholders replace nothing; while an argument's value is typed no flag/argument/command name is offered, and under a "
+         "typed `--name=`/`-n=` prefix every candidate completes an argument's value (C14_prefix_only_values, after fix: commit "
+         "b840250 found by the thorough tier); otherwise "
          "every matching hint of that level is offered. Tied to the code through cfg(bpaf_verif) hooks: 600 filter cases and "
          "800 random hint lists per run (20000 thorough) go through the library's own Complete::complete and the extracted "
          "model and must agree candidate for candidate. The FIRST stage (hint bookkeeping threaded through every parser) is NOT modelled: "
@@ -191,21 +193,28 @@ CHECKS = {
          "definition (adjacent groups included) whose own documents are what the Doc API can build, render_html and "
          "render_manpage return in the model (section extraction has enough fuel, the item writer's group loop terminates, no "
          "todo!() block is met). C04_console_rendering_returns: the console renderer returns for every document, form and width "
-         "(true after fix: commit efdd257 -- margins above the 50-column padding constant panicked). C04_total_without_adjacent: for "
-         "EVERY definition built without `adjacent` (every combinator of the model, arbitrarily nested: flags, arguments, "
+         "(true after fix: commit efdd257 -- margins above the 50-column padding constant panicked). C04_total: for "
+         "EVERY definition `oko` accepts -- every combinator of the model, arbitrarily nested: flags, arguments, "
          "positionals, any, subcommands, construct!, alternatives, optional/many/some/collect/count/last, fallback, guard, parse, "
-         "map, hide, usage, group_help, pure, fail, boxed) whose named items have a name or variable and whose levels pass "
-         "check_invariants (`oko`, decidable, evaluated on every generated definition: about 70% of the cases), on every argv and "
-         "environment run_inner yields a value, a document or an error: no panic outcome, no fuel exhaustion (mutual induction "
-         "over the parser; states stay well-formed because they only move by the legal steps of Reach.v). "
+         "map, hide, usage, group_help, pure, fail, boxed, subcommands adjacent or not, and ADJACENT GROUPS whose members keep their "
+         "scope (everything but `any`, subcommands and nested groups inside the group) and which start with an item; named items have a name "
+         "or variable; levels pass check_invariants (`oko` is decidable and evaluated on every generated definition) -- on every "
+         "argv and environment run_inner yields a value, a document or an error: no panic outcome, no fuel exhaustion (mutual "
+         "induction over the parser; states stay well-formed -- ledger bounded, scope inside it, `remaining` EXACTLY the number of "
+         "available items in the scope -- because they only move by the legal steps of Reach.v). C04_adjacent_group_total: the "
+         "retry loop of ParseAdjacent::eval ends within the fuel the model gives it (after the first retry the right end of the "
+         "window holds an available item outside the window, so later ends can only shrink) and its panic sites (scope "
+         "arithmetic, `before - remaining`) are unreachable; C04_adjacent_command_total: the window of an adjacent subcommand and "
+         "its one retry stay inside the ledger. "
          "C04_flat_fragment_total / C04_flat_level_total: the same through the token-list interpreter. NOT theorems: adjacent "
-         "groups and adjacent commands (retry loop fuelled; FUEL and the panic sites are explicit outcomes compared with the "
-         "implementation; one class is a known finding, two were repaired by fix: commits), the panic sites of rendering and "
+         "groups with `any`, subcommands or nested groups as members, or without a first "
+         "item (retry loop fuelled; FUEL and the panic sites are explicit outcomes compared with the implementation; one class "
+         "is a known finding, two were repaired by fix: commits), the panic sites of message rendering and "
          "completion (compared per run; one repaired), purity (by construction in Gallina; tied by re-running). "
          "Implementation side: every case under catch_unwind + watchdog; `twice` (same OptionParser, same vector) and `history` "
          "(one OptionParser: parse, completion at revisions 0/1/7/8/9 with and without an application name, html/markdown/"
          "manpage; two rounds must be identical).",
-         "4/C04", "Rocq proof (totality of every definition without adjacent by mutual induction, ledger/scope invariants, loop termination) + differential with explicit panic/fuel outcomes + run histories under catch_unwind"),
+         "4/C04", "Rocq proof (totality of every definition incl. simple adjacent groups by mutual induction, ledger/scope/exact-count invariants, loop and retry-loop termination) + differential with explicit panic/fuel outcomes + run histories under catch_unwind"),
  "C01": ("proof", "coq/Model/Conv.v states the declared grammar: `level` (conventional fragment: uniquely named switches/flags/"
          "required flags/counted/repeated flags/arguments x {required, optional, many, some, fallback, last}, positional suffix, "
          "subcommand trees with aliases), `compile` (the combinator term) and `denote` (one left-to-right attribution scan giving "
@@ -218,7 +227,7 @@ CHECKS = {
          "non-empty without leading dash) and every argv the grammar specifies, run_inner = Ok v EXACTLY when denote = Accept v; "
          "C01_tree_rejected_never_ok; the same for flat levels (C01_flat_complete) and the Accept half alone for flat/chain/tree "
          "(C01_sentences_accepted_*); C01_flat_total -- never a panic outcome or fuel exhaustion (for trees: "
-         "C04_total_without_adjacent). By refinement in layers: AbsSim.v (the evaluator of the fragment depends on the ledger "
+         "C04_total). By refinement in layers: AbsSim.v (the evaluator of the fragment depends on the ledger "
          "only through its live tokens: simulation with an interpreter over token lists, mutual induction over the parser), "
          "ConvRefine.v (that interpreter on the compiled level computes what the scan attributes), ConvChain.v (command step: "
          "scope narrowing, deeper levels' tokens are inert), ConvTree.v (the alternative over subcommands), ConvSound.v (the "
